@@ -244,6 +244,102 @@ Section AnyRoundTrip.
   Qed.
 End AnyRoundTrip.
 
+(* ------------------------------------------------------------------ FullName.IsValid = the grammar *)
+(* the grammar of FullName.IsValid: ident ( "." ident )*, ident = letter (letter | digit)* *)
+Inductive ident : list byte -> Prop :=
+  | ident_intro c r : is_letter c = true -> Forall (fun x => is_letter_digit x = true) r -> ident (c :: r).
+
+Inductive full_name : list byte -> Prop :=
+  | fn_one i : ident i -> full_name i
+  | fn_more i r : ident i -> full_name r -> full_name (i ++ dot :: r).
+
+Lemma dot_not_letter_digit : is_letter_digit dot = false.
+Proof. vm_compute. reflexivity. Qed.
+
+Lemma skip_letter_digits_split s :
+  exists p, s = p ++ skip_letter_digits s /\ Forall (fun x => is_letter_digit x = true) p /\
+            (skip_letter_digits s = [] \/ exists c t, skip_letter_digits s = c :: t /\ is_letter_digit c = false).
+Proof.
+  induction s as [|c r [p [Hp [Hf Hr]]]].
+  - exists []. split; [reflexivity|]. split; [constructor|now left].
+  - cbn [skip_letter_digits]. destruct (is_letter_digit c) eqn:E.
+    + exists (c :: p). split; [cbn; now rewrite <- Hp|]. split; [now constructor|exact Hr].
+    + exists []. split; [reflexivity|]. split; [constructor|]. right. now exists c, r.
+Qed.
+
+Lemma consume_ident_split s r :
+  consume_ident s = Some r ->
+  exists i, s = i ++ r /\ ident i /\ (r = [] \/ exists c t, r = c :: t /\ is_letter_digit c = false).
+Proof.
+  destruct s as [|c t]; [discriminate|]. cbn [consume_ident].
+  destruct (is_letter c) eqn:E; [|discriminate]. intros H. inversion H; subst.
+  destruct (skip_letter_digits_split t) as [p [Hp [Hf Hr]]].
+  exists (c :: p). split; [cbn; now rewrite <- Hp|]. split; [constructor; assumption|exact Hr].
+Qed.
+
+Lemma skip_letter_digits_app p r :
+  Forall (fun x => is_letter_digit x = true) p ->
+  (r = [] \/ exists c t, r = c :: t /\ is_letter_digit c = false) ->
+  skip_letter_digits (p ++ r) = r.
+Proof.
+  intros Hp Hr. induction Hp as [|x p Hx Hp IH]; cbn [app skip_letter_digits].
+  - destruct Hr as [->|[c [t [-> Hc]]]]; [reflexivity|]. cbn [skip_letter_digits]. now rewrite Hc.
+  - now rewrite Hx.
+Qed.
+
+Lemma consume_ident_app i r :
+  ident i -> (r = [] \/ exists c t, r = c :: t /\ is_letter_digit c = false) ->
+  consume_ident (i ++ r) = Some r.
+Proof.
+  intros [c p Hc Hp] Hr. cbn [app consume_ident]. rewrite Hc. now rewrite skip_letter_digits_app.
+Qed.
+
+Lemma full_name_rest_sound fuel : forall r,
+  full_name_rest fuel r = true -> r = [] \/ exists t, r = dot :: t /\ full_name t.
+Proof.
+  induction fuel as [|f IH]; intros r H; destruct r as [|c r1]; auto; cbn [full_name_rest] in H;
+    destruct (byte_eqb c dot) eqn:Ec; try discriminate;
+    destruct (consume_ident r1) as [r'|] eqn:Er; try discriminate.
+  apply byte_eqb_eq in Ec. subst c. right. exists r1. split; [reflexivity|].
+  destruct (consume_ident_split r1 r' Er) as [i [-> [Hi _]]].
+  destruct (IH r' H) as [->|[t [-> Ht]]].
+  - rewrite app_nil_r. now constructor.
+  - now apply fn_more.
+Qed.
+
+Lemma ident_nonempty i : ident i -> 1 <= length i.
+Proof. intros [c p _ _]. cbn. lia. Qed.
+
+Lemma full_name_rest_complete t :
+  full_name t -> forall fuel, length t <= fuel -> full_name_rest fuel (dot :: t) = true.
+Proof.
+  induction 1 as [i Hi|i r Hi Hr IH]; intros fuel Hf.
+  - pose proof (ident_nonempty i Hi). destruct fuel as [|f]; [lia|].
+    cbn [full_name_rest]. rewrite byte_eqb_refl.
+    rewrite <- (app_nil_r i). rewrite consume_ident_app by auto. destruct f; reflexivity.
+  - pose proof (ident_nonempty i Hi). rewrite app_length in Hf. cbn [length] in Hf.
+    destruct fuel as [|f]; [lia|].
+    cbn [full_name_rest]. rewrite byte_eqb_refl.
+    rewrite consume_ident_app; [|assumption|right; exists dot, r; split; [reflexivity|apply dot_not_letter_digit]].
+    apply IH. lia.
+Qed.
+
+(* FullName.IsValid accepts exactly the grammar; in particular the fuel of the model's loop never runs out *)
+Theorem full_name_valid_iff s : full_name_valid s = true <-> full_name s.
+Proof.
+  unfold full_name_valid. split.
+  - destruct (consume_ident s) as [r|] eqn:E; [|discriminate]. intros H.
+    destruct (consume_ident_split s r E) as [i [-> [Hi _]]].
+    destruct (full_name_rest_sound _ _ H) as [->|[t [-> Ht]]].
+    + rewrite app_nil_r. now constructor.
+    + now apply fn_more.
+  - intros H. destruct H as [i Hi|i r Hi Hr].
+    + rewrite <- (app_nil_r i) at 1. rewrite consume_ident_app by auto.
+      destruct (length i); reflexivity.
+    + rewrite consume_ident_app; [|assumption|right; exists dot, r; split; [reflexivity|apply dot_not_letter_digit]].
+      apply full_name_rest_complete; [assumption|]. rewrite app_length. cbn. lia.
+Qed.
+
 (* ------------------------------------------------------------------ combined statements used by Props/C45.v *)
 Theorem message_is_name_both :
   forall name, message_is (any_new_url name) name = true /\
